@@ -97,6 +97,17 @@ def explore(chk):
         if doc not in seen:
             seen.add(doc)
         cases.append(("own", doc, name))
+    # long documents: a marker (or the whole structure) far beyond any fixed-size prefix
+    for marker in ["</tt>", "WEBVTT", "<sami", "-->"]:
+        for pad in (70000, 200000):
+            t = "x" * pad + marker
+            if t not in seen:
+                seen.add(t); cases.append(("long", t, None))
+    big = gen.abstract_set(chk.rng, nlang=1, ncap=400, start=4000000, max_lines=2, gap_choices=(2000000, 3000000))
+    for name, W in gen.writers().items():
+        if name == "scc":
+            continue
+        cases.append(("own", W().write(gen.build_set(big)), name))
     if chk.driver_ok:
         b = core.Batch()
         for tag, s, _ in cases:
@@ -111,9 +122,9 @@ def explore(chk):
         I = impl_detect(s)
         ones = {k: impl_one(k, s) for k in DOCUMENTED}
         S = spec(s, ones)
-        nontriv = (I != "none") or tag in ("trunc", "own")
+        nontriv = (I != "none") or tag in ("trunc", "own", "long")
         chk.case(key=s, nontrivial=nontriv,
-                 sample={"input": s, "impl": I, "spec": S} if (tag != "exh" and len(s) < 200) or (I.startswith("ok") and len(chk.samples) < 3) else None)
+                 sample={"input": s, "impl": I, "spec": S} if (tag not in ("exh", "long") and len(s) < 200) or (I.startswith("ok") and len(chk.samples) < 3) else None)
         chk.count("tag_" + tag)
         chk.count("result_" + I.split(":")[-1] if I.startswith("ok") else "result_" + I)
         if out is not None:
